@@ -51,11 +51,19 @@ def cases(tier, seed):
                                              "assign": aa})
                     else:
                         algs = common.static_algs(case, ("dynamic",), "all")
-                    for alg in algs:
+                    for k, alg in enumerate(algs):
                         c = dict(case)
                         c["alg"] = alg
                         c["delay"] = {"mode": "choice", "arity": 3}
                         out.append(("S-static-M%d/%s" % (M, label), c))
+                        if common.keep(k, 4):
+                            # machine ids numbered per category (two
+                            # machines share a number), as in the repo's
+                            # own configuration files
+                            cc = dict(c)
+                            cc["cfg"] = dict(cfg, mids=world.percat_ids(M))
+                            out.append(("S-static-M%d-percat-ids/%s"
+                                        % (M, label), cc))
     return common.rotate(out, seed)
 
 
